@@ -226,3 +226,22 @@ Example selections :
   selected [s_s; s_a] = Ok [s_srv; s_add] /\ selected [s_srv; s_add; [122]%N] = Ok [s_srv; s_add] /\
   selected [] = Ok [s_top] /\ selected [[122]%N] = Err CannotResolve /\ selected [s_srv; t_flag3] = Ok [s_srv; s_x2].
 Proof. vm_compute. repeat split. Qed.
+(* the hypotheses of the default-choice theorems on that tree: below srv the defaults are x1, x2 (in that order); the line
+   srv --flag=3 cannot be parsed for x1 (its --flag takes no value) and parses for x2 *)
+Example default_choice_instance :
+  match walk (named_of cmds0) None [s_srv] with
+  | Ok (Some (b, p)) =>
+    p = [s_srv] /\
+    match defaults_of (b_subs b) with
+    | [d1; d2] => b_name d1 = s_x1 /\ b_name d2 = s_x2 /\ cannot [s_srv; t_flag3] d1 /\
+                  (exists a, parse (b_fmt d2) (b_lenient d2) [s_srv; t_flag3] = Ok a) /\
+                  (exists a, parse (b_fmt d1) (b_lenient d1) [s_srv] = Ok a)
+    | _ => False end
+  | _ => False end.
+Proof. vm_compute. repeat split; try reflexivity; eexists; reflexivity. Qed.
+(* and of same_leading_tokens_same_selection: below "top" there is no default sub-command *)
+Example one_default_instance :
+  match walk (named_of cmds0) None [s_top] with
+  | Ok (Some (b, p)) => length (defaults_of (b_subs b)) <= 1 /\ leading [s_top; t_flag3] = leading [s_top]
+  | _ => False end.
+Proof. vm_compute. split; [lia|reflexivity]. Qed.
